@@ -592,4 +592,49 @@ func Query(r *core.Rand, o Opts) string {
 	return b.String()
 }
 
+// Damage returns a near-miss of a statement text, as a person typing it would produce: one of its
+// leading words truncated, pluralised, with a doubled or swapped letter, dropped or repeated, or
+// the text cut at a word boundary. Almost every result is rejected by the parser, each on a
+// different error path (unknown-statement errors of the dispatch tree, expected-token errors).
+func Damage(r *core.Rand, s string) string {
+	w := strings.Split(s, " ")
+	if len(w) == 0 || s == "" {
+		return s
+	}
+	lim := len(w)
+	if lim > 4 && r.Chance(4, 5) {
+		lim = 4
+	}
+	k := r.Intn(lim)
+	x := w[k]
+	switch r.Intn(8) {
+	case 0, 1: // truncated by one or two letters
+		n := 1 + r.Intn(2)
+		if len(x) > n+1 {
+			x = x[:len(x)-n]
+		}
+		w[k] = x
+	case 2: // pluralised
+		w[k] = x + r.Pick([]string{"S", "s", "ES"})
+	case 3: // doubled last letter
+		if len(x) > 0 {
+			w[k] = x + x[len(x)-1:]
+		}
+	case 4: // two adjacent letters swapped
+		if len(x) > 2 {
+			i := r.Intn(len(x) - 1)
+			b := []byte(x)
+			b[i], b[i+1] = b[i+1], b[i]
+			w[k] = string(b)
+		}
+	case 5: // word dropped
+		w = append(w[:k:k], w[k+1:]...)
+	case 6: // word repeated
+		w = append(w[:k+1:k+1], w[k:]...)
+	default: // cut after word k
+		w = w[:k+1]
+	}
+	return strings.Join(w, " ")
+}
+
 var _ = fmt.Sprintf
